@@ -105,6 +105,7 @@ func dropNullOptionals(s gschema.Schema, t gschema.Term, v any, budget int) any 
 }
 
 // canonLenient: exact numbers, key order free, optional explicit null may be omitted.
+// The result is a comparison key (numbers are exact rationals), not JSON text.
 func canonLenient(s gschema.Schema, doc string) (string, error) {
 	dec := json.NewDecoder(strings.NewReader(doc))
 	dec.UseNumber()
@@ -120,6 +121,15 @@ func canonLenient(s gschema.Schema, doc string) (string, error) {
 	return gschema.CanonJSON(string(b))
 }
 
+// lenientValue is the decoded document after the null lenience (for diffClass).
+func lenientValue(s gschema.Schema, doc string) any {
+	dec := json.NewDecoder(strings.NewReader(doc))
+	dec.UseNumber()
+	var v any
+	dec.Decode(&v)
+	return dropNullOptionals(s, s.Objs[0].T, v, 3)
+}
+
 func formatRank(f string) int {
 	for i, x := range gschema.Formats {
 		if x == f {
@@ -131,15 +141,9 @@ func formatRank(f string) int {
 
 // diffClass names what differs between two canonical JSON texts at the
 // coarsest useful level (deterministic: members are visited in sorted order).
-func diffClass(want, got string) string {
-	var a, b any
-	da := json.NewDecoder(strings.NewReader(want))
-	da.UseNumber()
-	da.Decode(&a)
-	db := json.NewDecoder(strings.NewReader(got))
-	db.UseNumber()
-	db.Decode(&b)
-	return diffValue(a, b)
+// want and got are JSON texts.
+func diffClass(s gschema.Schema, want, got string) string {
+	return diffValue(lenientValue(s, want), lenientValue(s, got))
 }
 
 func sortedKeys(m map[string]any) []string {
@@ -190,12 +194,14 @@ func diffValue(a, b any) string {
 	}
 	ja, _ := json.Marshal(a)
 	jb, _ := json.Marshal(b)
-	if string(ja) != string(jb) {
-		ca, cb := valueClass(a), valueClass(b)
-		if ca == cb {
-			return ca + " value changed"
+	ca, _ := gschema.CanonJSON(string(ja))
+	cb, _ := gschema.CanonJSON(string(jb))
+	if ca != cb {
+		ka, kb := valueClass(a), valueClass(b)
+		if ka == kb {
+			return ka + " value changed"
 		}
-		return ca + " became " + cb
+		return ka + " became " + kb
 	}
 	return ""
 }
